@@ -257,6 +257,10 @@ def stepLine (st : DState) (line : String) : DState × String :=
   | ["conn", "clear"] =>
     let c' := clearWrite st.conn
     ({ st with conn := c' }, s!"ok pw={bool01 (pendingWrite c')}")
+  | ["conn", "setlimit", l] =>
+    match l.toNat? with
+    | some l => ({ st with conn := setLimit st.conn l, conn00 := { st.conn00 with limit := l } }, "ok")
+    | none => (st, "bad-op")
   | ["spec", "feed", l, h] =>
     match l.toNat?, unhex h with
     | some l, some bs =>
